@@ -43,8 +43,50 @@ func describeTag(tag string) string {
 	}
 }
 
+// invalidMerge returns the first merge key (`<<`) with a value that the YAML decoder
+// refuses to merge, it must be a mapping or a list of mappings.
+func invalidMerge(node *yaml.Node) *yaml.Node {
+	isMap := func(n *yaml.Node) bool {
+		if n.Kind == yaml.AliasNode {
+			n = n.Alias
+		}
+		return n != nil && n.Kind == yaml.MappingNode
+	}
+	if node.Kind == yaml.MappingNode {
+		for i := 0; i+1 < len(node.Content); i += 2 {
+			key, val := node.Content[i], node.Content[i+1]
+			if key.ShortTag() != mergeTag || key.Value != "<<" {
+				continue
+			}
+			ok := isMap(val)
+			if val.Kind == yaml.SequenceNode {
+				ok = true
+				for _, item := range val.Content {
+					ok = ok && isMap(item)
+				}
+			}
+			if !ok {
+				return key
+			}
+		}
+	}
+	for _, child := range node.Content {
+		if key := invalidMerge(child); key != nil {
+			return key
+		}
+	}
+	return nil
+}
+
 func parseGroups(doc *yaml.Node, schema Schema, offsetLine, offsetColumn int, contentLines []string) (groups []Group, _ ParseError) {
 	names := map[string]struct{}{}
+
+	if key := invalidMerge(doc); key != nil {
+		return nil, ParseError{
+			Line: key.Line,
+			Err:  errors.New("map merge requires map or sequence of maps as the value"),
+		}
+	}
 
 	for _, node := range doc.Content {
 		if !isTag(node.ShortTag(), mapTag) {
